@@ -87,6 +87,11 @@ def one(subs: str, rng: Any, per_leaf: bool, ell: tuple[int, ...] = ELL, ell_blo
     # the ellipsis of the block term may stand for fewer axes than the one of the leaf (NumPy broadcasting)
     bshape, xshape = shape_of(left, ell if ell_blocks is None else ell_blocks), shape_of(right, ell)
     dt = np.float32
+    bdt: Any = dt
+    if sum(map(ord, subs)) % 5 == 0:
+        # blocks strictly wider than the data (NumPy promotion: the result takes the wider type, nothing is narrowed)
+        bdt, dt = (np.float64, np.float32) if gen.X64 else (np.float32, np.float16)
+        LOG.count('C14.dtypes', f'blocks={np.dtype(bdt).name},data={np.dtype(dt).name}')
     nb = np.asarray(rng.integers(-4, 5, size=bshape), dtype=np.float64)
     nx = np.asarray(rng.integers(-4, 5, size=xshape), dtype=np.float64)
     try:
@@ -99,15 +104,15 @@ def one(subs: str, rng: Any, per_leaf: bool, ell: tuple[int, ...] = ELL, ell_blo
     LOG.count('C14.strings', 'valid-einsum')
     stokes_leaves = (not per_leaf) and len(subs) % 5 == 0
     if per_leaf:
-        blocks: Any = [jnp.asarray(nb, dtype=dt), jnp.asarray(nb[::-1].copy() if nb.ndim else nb, dtype=dt)]
+        blocks: Any = [jnp.asarray(nb, dtype=bdt), jnp.asarray(nb[::-1].copy() if nb.ndim else nb, dtype=bdt)]
         s: Any = [gen.S(xshape, dt), gen.S(xshape, dt)]
     elif stokes_leaves:
         # one shared block array applied to every component of a Stokes container
         from furax.landscapes import StokesQUPyTree
-        blocks = jnp.asarray(nb, dtype=dt)
+        blocks = jnp.asarray(nb, dtype=bdt)
         s = StokesQUPyTree.structure_for(xshape, dt)
     else:
-        blocks = jnp.asarray(nb, dtype=dt)
+        blocks = jnp.asarray(nb, dtype=bdt)
         s = gen.S(xshape, dt)
     mon = 'C14.construct'
     try:
@@ -141,6 +146,13 @@ def one(subs: str, rng: Any, per_leaf: bool, ell: tuple[int, ...] = ELL, ell_blo
         return
     LOG.count('C14.transpose', 'accepted' + ('' if accepted_expected else '-beyond-predicate'))
     LOG.case_key(subs, True)
+    if type(t).__name__ != 'DenseBlockDiagonalOperator':
+        # neither an operator with rewritten subscripts nor an error: "strings for which no rewriting exists are rejected"
+        LOG.evaluated(mon)
+        LOG.violation('C14', mon, f'DenseBlockDiagonalOperator.T/neither-rewritten-nor-rejected/{type(t).__name__}',
+                      f'{subs!r}: the transpose is a {type(t).__name__}, not an einsum operator with rewritten subscripts, and no error was raised',
+                      subscripts=subs, expected_transposable=accepted_expected)
+        return
 
     def judge() -> None:
         m = dense.matrix(op)
@@ -155,7 +167,13 @@ def one(subs: str, rng: Any, per_leaf: bool, ell: tuple[int, ...] = ELL, ell_blo
         if mt.shape != m.T.shape or not np.array_equal(mt, m.T):
             LOG.violation('C14', mon, 'DenseBlockDiagonalOperator.T/not-adjoint', f'{subs!r} -> {t.subscripts!r} is not the adjoint',
                           subscripts=subs, transposed=t.subscripts, per_leaf=per_leaf)
-        if not (dense.struct_eq_loose(t.in_structure(), op.out_structure()) and dense.struct_eq_loose(t.out_structure(), op.in_structure())):
+        if bdt is not dt:
+            # blocks wider than the data: the product is promoted, so the transpose cannot map back onto the narrower input dtype
+            # (outside "parameters no wider than the data"): shapes only
+            shp = lambda st: [tuple(l.shape) for l in dense.leaves(st)]  # noqa: E731
+            if shp(t.in_structure()) != shp(op.out_structure()) or shp(t.out_structure()) != shp(op.in_structure()):
+                LOG.violation('C14', mon, 'DenseBlockDiagonalOperator.T/structures', f'{subs!r}: shapes not swapped', subscripts=subs)
+        elif not (dense.struct_eq_loose(t.in_structure(), op.out_structure()) and dense.struct_eq_loose(t.out_structure(), op.in_structure())):
             LOG.violation('C14', mon, 'DenseBlockDiagonalOperator.T/structures', f'{subs!r}: structures not swapped', subscripts=subs)
     guarded(mon, judge)
     if len(LOG.samples) < 6:
